@@ -1908,7 +1908,7 @@ class MatlabWrapper(CheckMixin, FormatMixin):
         modules = {}
         for file in files:
             with open(file, 'r') as f:
-                content += f.read()
+                content += f.read() + "\n"
 
         # Parse the contents of the interface file
         parsed_result = parser.Module.parseString(content)
